@@ -5,6 +5,7 @@
 //! in `Lexer::lex`, which can only trigger after `256 + 32 * source_len`
 //! iterations of the main loop.
 
+use super::lexer_mode::LexerMode;
 use std::cell::Cell;
 
 /// Lexer configuration at the moment the main loop has left
@@ -31,6 +32,108 @@ pub struct VerifInfo {
     /// Rollbacks that happened after an error was pushed since the checkpoint
     pub rollbacks_with_new_errors: u32,
     pub max_mode_stack_depth: u32,
+    /// Bit set over (top mode, checkpoint live, class of the next character) triples the
+    /// main loop has dispatched on, see `cover_index`
+    pub dispatch_cover: [u64; COVER_WORDS],
+}
+
+pub const MODE_NAMES: [&str; 22] = [
+    "Default",
+    "ExpectSymbol",
+    "ExpectSemiOrEOF",
+    "MakeCheckpoint",
+    "WsOrCStyleCommentOnly",
+    "StringExpr",
+    "MaybeMacroCallArgsOrLabel",
+    "MaybeMacroCallArgAssign",
+    "MacroCallArgOrValue",
+    "MaybeMacroDefArgs",
+    "MacroDefArg",
+    "MacroDefNextArgOrDefaultValue",
+    "MacroDefName",
+    "MacroCallValue",
+    "MaybeTailMacroArgValue",
+    "MacroStrQuotedExpr",
+    "MacroEval",
+    "MacroDo",
+    "MacroLocalGlobal",
+    "MacroNameExpr",
+    "MacroSemiTerminatedTextExpr",
+    "MacroStatOptionsTextExpr",
+];
+
+pub const CLASS_NAMES: [&str; 24] = [
+    "blank", "newline", "unicode-ws", "'", "\"", ";", "/", "*", "&", "%", "digit", "ascii-name-start",
+    "unicode-name-start", "(", ")", ",", "=", ".", "$", "<>", "+-", ":", "other-symbol", "other",
+];
+
+pub const COVER_WORDS: usize = (22 * 2 * 24 + 63) / 64;
+
+pub(crate) fn mode_index(mode: &LexerMode) -> usize {
+    match mode {
+        LexerMode::Default => 0,
+        LexerMode::ExpectSymbol(..) => 1,
+        LexerMode::ExpectSemiOrEOF => 2,
+        LexerMode::MakeCheckpoint => 3,
+        LexerMode::WsOrCStyleCommentOnly => 4,
+        LexerMode::StringExpr { .. } => 5,
+        LexerMode::MaybeMacroCallArgsOrLabel { .. } => 6,
+        LexerMode::MaybeMacroCallArgAssign { .. } => 7,
+        LexerMode::MacroCallArgOrValue { .. } => 8,
+        LexerMode::MaybeMacroDefArgs => 9,
+        LexerMode::MacroDefArg => 10,
+        LexerMode::MacroDefNextArgOrDefaultValue => 11,
+        LexerMode::MacroDefName => 12,
+        LexerMode::MacroCallValue { .. } => 13,
+        LexerMode::MaybeTailMacroArgValue => 14,
+        LexerMode::MacroStrQuotedExpr { .. } => 15,
+        LexerMode::MacroEval { .. } => 16,
+        LexerMode::MacroDo => 17,
+        LexerMode::MacroLocalGlobal { .. } => 18,
+        LexerMode::MacroNameExpr(..) => 19,
+        LexerMode::MacroSemiTerminatedTextExpr => 20,
+        LexerMode::MacroStatOptionsTextExpr => 21,
+    }
+}
+
+pub(crate) fn char_class(c: char) -> usize {
+    match c {
+        '\n' => 1,
+        ' ' | '\t' | '\r' => 0,
+        c if c.is_whitespace() => 2,
+        '\'' => 3,
+        '"' => 4,
+        ';' => 5,
+        '/' => 6,
+        '*' => 7,
+        '&' => 8,
+        '%' => 9,
+        '0'..='9' => 10,
+        'a'..='z' | 'A'..='Z' | '_' => 11,
+        c if unicode_ident::is_xid_start(c) => 12,
+        '(' => 13,
+        ')' => 14,
+        ',' => 15,
+        '=' => 16,
+        '.' => 17,
+        '$' => 18,
+        '<' | '>' => 19,
+        '+' | '-' => 20,
+        ':' => 21,
+        '!' | '|' | '^' | '~' | '#' | '@' | '?' | '{' | '}' | '[' | ']' | '¬' | '¦' | '∘' => 22,
+        _ => 23,
+    }
+}
+
+#[inline]
+pub(crate) fn cover_index(mode: usize, checkpoint_live: bool, class: usize) -> usize {
+    (mode * 2 + usize::from(checkpoint_live)) * 24 + class
+}
+
+/// The same index computation for harnesses that read `dispatch_cover`
+#[must_use]
+pub fn cover_index_pub(mode: usize, checkpoint_live: bool, class: usize) -> usize {
+    cover_index(mode, checkpoint_live, class)
 }
 
 thread_local! {
